@@ -1,9 +1,72 @@
-import ShpanVerif.Util.Parse
-/- Driver handler for C07 (stub: replaced when the property's model lands). -/
-namespace ShpanVerif.Drive.C07
+import ShpanVerif.Drive.ConcAccept
+/-
+Driver handler for C07.  Case / observation format: harness/run/conc_util.go.
 
-/-- returns (model output, spec verdict on the observation, reason) -/
-def handle (_c _obs : String) : String × Bool × String :=
-  ("unimplemented", false, "no model yet")
+spec predicate (independent of the model):
+  * the terminal returned within the watchdog (`hang=-`), the process did not crash, nothing panicked through;
+  * no goroutine of the materialisation is alive after the quiescence wait (`leak=0`) — nothing is released by the
+    harness after the terminal returned;
+  * a `nil` result is complete: unless the case's own downstream ends the stream (Limit / FindFirst) every source
+    element was delivered (concurrent consume: handed to the callback); in particular a cancellation that cut
+    delivery never yields `nil`;
+  * an injected failure that is certainly reached (no cancel, no early stop) does not yield `nil`;
+  * racy recipes (`trials`): zero `nil` results and zero leaks / hangs over all trials.
+
+model output: the observation is echoed iff the model admits it — concurrent map, scripted, small: trace acceptance
+(`acceptCmap`: the log must be a trace of the transition system ending in a final state with the observed result
+class and delivered multiset); otherwise the theorem-level summary (`C07_terminates_*`: no hang, no leak;
+`C07_cancel_error_*`: `nil` ⇒ complete or stopped).
+-/
+namespace ShpanVerif.Drive.C07
+open ShpanVerif.Util ShpanVerif.Model ShpanVerif.Drive.Conc
+
+def allDelivered (c : Case) : List Nat :=
+  if c.op == "cmap" || c.op == "nest" then (List.range c.n).map (· + 1000) else List.range c.n
+
+def stopsItself (c : Case) : Bool := c.first || c.limit != 0
+
+def faultCertain (c : Case) : Bool :=
+  c.cancel < 0 && !stopsItself c && c.park < 0 && c.filt == "" && c.op != "pipe" &&
+    ((c.mf ≥ 0 && c.mf < c.n && (c.op == "cmap" || c.op == "nest" || c.op == "ccons")) ||
+     (c.mp ≥ 0 && c.mp < c.n && (c.op == "cmap" || c.op == "nest" || c.op == "ccons")) ||
+     (c.se ≥ 0 && c.se ≤ c.n) || (c.cf != 0 && c.cf ≤ c.n && c.op != "ccons"))
+
+def specTrials (o : Obs) : Bool × String :=
+  let ok := o.kv.nat "ok" 1
+  let lh := o.kv.nat "leakhang" 1
+  if ok != 0 then (false, s!"{ok} of {o.kv.nat "trials"} trials returned nil although cancellation cut delivery")
+  else if lh != 0 then (false, s!"{lh} trials hung or left goroutines")
+  else (true, "")
+
+def spec (c : Case) (o : Obs) : Bool × String :=
+  if c.trials > 1 then specTrials o else
+  if o.hang != "-" || o.res == "hang" then (false, s!"terminal did not return / deadlock ({o.hang})")
+  else if o.res == "crash" || o.res == "panic" then (false, s!"run ended with {o.res}")
+  else if o.leak != 0 then (false, s!"{o.leak} goroutines left after the terminal returned")
+  else if o.res == "ok" && faultCertain c then (false, "nil result although an injected failure was reached")
+  else if o.res == "ok" && c.op != "pipe" then
+    if stopsItself c then
+      let k := if c.first then 1 else c.limit
+      if o.del.length ≥ min k c.n then (true, "") else (false, "nil result with fewer elements than the limit")
+    else if o.del == allDelivered c then (true, "")
+    else (false, "nil result although elements remained undelivered")
+  else (true, "")
+
+def model (c : Case) (o : Obs) (obsText : String) : String :=
+  if c.trials > 1 then s!"trials={o.kv.nat "trials"} ok=0 other={o.kv.nat "other"} leakhang=0" else
+  if c.op == "cmap" && c.sync then
+    match acceptCmap c o with
+    | "accepted" => obsText
+    | "skipped" => obsText
+    | why => s!"model(ConcMap) {why}"
+  else obsText
+
+def handle (cs obs : String) : String × Bool × String :=
+  match parseCase cs with
+  | none => ("bad-case", false, "unparsable case")
+  | some c =>
+    let o := parseObs obs
+    let (ok, why) := spec c o
+    (model c o obs, ok, why)
 
 end ShpanVerif.Drive.C07
